@@ -89,6 +89,10 @@ pub fn build_world(spec: &Value, goal_kind: &str) -> World {
                     b = match kind {
                         "del" => b.demand(Demand::<SingleDimLoad>::delivery(q)),
                         "pick" => b.demand(Demand::<SingleDimLoad>::pickup(q)),
+                        "rep" => b.demand(Demand::<SingleDimLoad> {
+                            pickup: (SingleDimLoad::new(q), SingleDimLoad::default()),
+                            delivery: (SingleDimLoad::new(q), SingleDimLoad::default()),
+                        }),
                         _ => b,
                     };
                     b.location(loc(&j["loc"])).unwrap().duration(j["dur"].as_f64().unwrap()).unwrap().times(tws(&j["tws"])).unwrap().build_as_job().unwrap()
@@ -117,6 +121,13 @@ pub fn build_world(spec: &Value, goal_kind: &str) -> World {
         vec![
             unassigned,
             create_minimize_tours_feature("min-tours").unwrap(),
+            TransportFeatureBuilder::new("min-distance").set_transport_cost(transport.clone()).build_minimize_distance().unwrap(),
+            capacity,
+        ]
+    } else if goal_kind == "E" {
+        vec![
+            unassigned,
+            create_maximize_tours_feature("max-tours").unwrap(),
             TransportFeatureBuilder::new("min-distance").set_transport_cost(transport.clone()).build_minimize_distance().unwrap(),
             capacity,
         ]
@@ -296,7 +307,7 @@ fn main() {
     for case in cases.iter() {
         let wi = case["w"].as_u64().unwrap() as usize;
         let j = case["j"].as_u64().unwrap() as usize - 1;
-        for goal_kind in ["A", "B"] {
+        for goal_kind in ["A", "B", "E"] {
             let world = worlds.entry((wi, goal_kind.to_string())).or_insert_with(|| build_world(&worlds_spec[wi - 1], goal_kind));
             let rec = catch(|| {
                 let mut ictx = build_ctx(world, &case["tour"], env.clone());
